@@ -76,10 +76,8 @@ theorem C02_parse_encode (m : Msg) (h : m.Packable) (rest : Bytes) (acc : List P
   have ⟨hu, hmg⟩ := C02_unpack_pack m h
   have hof := (C02_magic m.cmd).1
   rw [parseStrictAux]
-  have hge : ¬ (m.encode ++ rest).length < 24 := by simp [Msg.encode, hlen]
-  simp only [hge, if_false, htake, hu, hmg, hof, hdrop]
-  have : ¬ (m.data.length + rest.length < m.data.length) := by omega
-  simp [checksum, this]
+  simp only [htake, hlen, Nat.lt_irrefl, if_false, hu, hmg, hof, hdrop]
+  simp [checksum]
 
 /-- A whole emitted stream: concatenated encodings parse back to exactly the messages, nothing left. -/
 theorem C02_parse_stream (ms : List Msg) (h : ∀ m ∈ ms, m.Packable) (acc : List Pkt) (fuel : Nat)
